@@ -96,7 +96,7 @@ func oneCallOpt(src string, viaFile bool, optmask int) (r callResult) {
 	var p *bcl.Prog
 	var err error
 	if viaFile {
-		p, err = bcl.ParseFile(&scriptFile{data: []byte(src), script: []readStep{{N: 7}, {N: 100}, {N: 1}}, name: "n"}, opts...)
+		p, err = bcl.ParseFile(&scriptFile{data: []byte(src), script: []readStep{{N: 7}, {N: 100}, {N: 1}}, name: "n", racy: true}, opts...)
 	} else {
 		p, err = bcl.Parse([]byte(src), "n", opts...)
 	}
@@ -138,7 +138,7 @@ func checkC12(c caseC12) (viol string, nontrivial bool, feats []string) {
 		src := c.Input.source()
 		var log lockedBuf
 		var diagWrites, undeliveredAtDiag int
-		f := &scriptFile{data: []byte(src), script: c.Script, name: "f"}
+		f := &scriptFile{data: []byte(src), script: c.Script, name: "f", racy: true}
 		f.onRead = func(k int) {
 			if k < len(c.Yields) {
 				perform(c.Yields[k], new(int64))
